@@ -3,6 +3,10 @@
 import json, subprocess
 
 CHECKS = {
+ "C15": dict(level="exploration", design="§3 C15",
+   technique="exhaustive enumeration of single-field NodePool edits (hash) and of validated NodePool requirement atoms x pods x every permitted launch through the real hash, provisioning, lifecycle and drift controllers",
+   text="(a) Three base templates x every single-field edit of a closed list (template labels, annotations, taints, startupTaints, nodeClassRef, terminationGracePeriod in {unset,0s,30s,1m}, expireAfter in {Never,0s,10m,1h}; budgets, requirements, limits, weight, consolidation settings, list/map order, metadata/status): hashed edits must change NodePool.Hash(), the others must not. (b) Every satisfiable single-requirement NodePool on a custom / provider key x pods constraining the key: real hash controller -> provisioner -> NodeClaim -> real lifecycle controller under EVERY permitted launch (up to 4 quick / 12 thorough) -> real nodeclaim.disruption controller: never Drifted when fresh or two hours later, RequirementsDrifted when the pool is edited to exclude the node's zone (and cleared when restored), NodePoolDrifted after a hashed edit and a real hash-controller run, never across hash versions.",
+   note="Provider-side IsDrifted returns no drift; NodePools that no label value can satisfy are excluded from (b)."),
  "C04": dict(level="exploration", design="§3 C04",
    technique="exhaustive enumeration of two-pass provisioning histories over every permitted launch choice and every lifecycle stage, judged by the independent admission oracle",
    text="Catalogs x NodePool configs x daemonsets x all batches of <=2 preference-free pods: pass 1 is the real Provisioner.Reconcile (batcher, Synced gate, Schedule, CreateNodeClaims); while the created NodeClaims are unlaunched a second Reconcile must list no pods and create nothing. Then for every permitted launch of each NodeClaim (cheapest-first, up to 3 quick / 8 thorough per claim) and every stage (launched, node appeared unregistered with/without hostname and with zero extended resources, registered, initialized) reached through the real lifecycle controller and kubelet events, pass 2 runs with the pods still pending: a pod placed on a NEW NodeClaim must be inadmissible on every in-flight node (launched type's allocatable) together with everything assigned there.",
